@@ -29,6 +29,7 @@ DECIDED = [
     "DET-1 no rule lets the iteration order of a set decide what it reports",
     "DET-2 no function of the validation module keeps state between calls in a mutable default argument",
     "PURE-4 every rule function defined in odml.validation - registered by default or offered for custom validations - writes nothing visible",
+    "ORDER-4 (C18) load() after a background loader re-dispatches: a failed background load is retried instead of answered with None once",
     "CACHE-1 (shared with C18) a terminology enters the cache only after it was finalised (the terminology rules read that cache)",
     "RESET-1 run_validation empties the issue list before any rule runs and on every path",
 ]
@@ -319,6 +320,10 @@ def run(prog, rep):
     from .c18 import publish_after_finalize
     publish_after_finalize(prog, rep, prog.cls("Terminologies"), "Terminologies", "CACHE-1")
 
+    from ..report import import_verdicts
+    import_verdicts(prog, rep, "C18", ("ORDER-4",), "ORDER-4",
+                    "the terminology rules read Terminologies.load(): what it returns for one URL must not depend on whether a background "
+                    "loader ran before")
     reset1_rule(prog, rep, "RESET-1")
     rep.note("register_custom_handler on a Validation built without reset=True mutates the class registry (public API misuse, "
              "outside the statement); the package itself never does so (TS-1)")
